@@ -4,6 +4,7 @@ import sys
 from numbers import Number
 from timeit import default_timer
 
+from dask._task_spec import DataNode
 from dask.callbacks import Callback
 
 overhead = sys.getsizeof(1.23) * 4 + sys.getsizeof(()) * 4
@@ -47,7 +48,7 @@ class Cache(Callback):
         self.durations = dict()
         overlap = set(dsk) & set(self.cache.data)
         for key in overlap:
-            dsk[key] = self.cache.data[key]
+            dsk[key] = DataNode(key, self.cache.data[key])
 
     def _pretask(self, key, dsk, state):
         self.starttimes[key] = default_timer()
